@@ -144,11 +144,19 @@ func init() {
 	// ------------------------------------------------------------------ C04 (worker part; the queue part is in vseq)
 	register(&Spec{Prop: "C04",
 		Gen: func(t *rapid.T, th bool) *Case {
-			pf := &Profile{Kinds: allKinds, QKinds: memQKinds, MaxQueues: 1, Concs: []int{1, 1, 1, 2, 3}, MinClients: 1, MaxClients: 2, MaxOps: scale(th, 8, 14),
+			pf := &Profile{Kinds: allKinds, QKinds: []string{"std", "prio", "std", "prio", "pers", "persprio"}, MaxQueues: 1, Concs: []int{1, 1, 1, 2, 3}, MinClients: 1, MaxClients: 2, MaxOps: scale(th, 8, 14),
 				Ops:     map[string]int{"add": 30, "addall": 8, "addmany": 12, "purge": 2, "settle": 3, "release": 4, "yield": 3},
 				Ctrl:    map[string]int{"pausewait": 4, "resume": 4, "settle": 2},
 				MaxCtrl: 4, GatedProb: 25, MaxBatch: 6, BurstProb: scale(th, 10, 30), Prios: []int{0, 0, 1, 1, 2, -1, -1, 5, -9223372036854775808, 9223372036854775807}, StartPausedProb: 40}
-			return genProgram(t, "C04", pf, th)
+			c := genProgram(t, "C04", pf, th)
+			// persistent queues: some acknowledgements are slow (they complete only when nothing else can
+			// run), so a pool worker stays busy in its completion path while later jobs are handed out
+			if k := c.Cfg.Queues[0]; (k == "pers" || k == "persprio") && rapid.Bool().Draw(t, "slowacks") {
+				for i := 0; i < rapid.IntRange(1, 3).Draw(t, "nslow"); i++ {
+					c.Faults = append(c.Faults, Fault{Method: "AckGate", K: rapid.IntRange(1, 4).Draw(t, "slowk")})
+				}
+			}
+			return c
 		},
 		Oracles: []oracleFn{oC04},
 		Foreign: []oracleFn{oCrash("*"), oDeadlock("C03"), oLivelock("C03")},
